@@ -261,7 +261,8 @@ func (c *Ctx) ResidueDiff(rs []*Result) []string {
 // orders
 
 var sufRe = regexp.MustCompile(`^([0-9]+(?:\.[0-9]*)?|\.[0-9]+)([kKMGTPEZY]i?)?[bB]?$`)
-var wordRe = regexp.MustCompile(`^[^0-9.]+$`)
+// a text without any digit is not a number (the spellings of infinity and NaN are recognised before)
+var wordRe = regexp.MustCompile(`^[^0-9]+$`)
 
 func numClass(s string) (class int, val *big.Rat, nan bool, inf int) {
 	if f, err := strconv.ParseFloat(s, 64); err == nil {
